@@ -104,7 +104,7 @@ PROPS["C04"] = dict(
         dict(name="S3 order-independence step", dir="rbc", files=["rbc_c04.go.txt"], entry="verifH_C04_step", count=["assert:C04-", "panic:"], expect_covers=["end"], s3=True,
              bounds={"N": 3, "receiver": 1, "messages due": 6, "pre-state": "canonical state of an arbitrary received subset (6 symbolic flags)", "event": "any message not yet received"}),
         _rbc_sys(2, 2, 2), _rbc_sys(3, 1, 1), _rbc_sys(3, 2, 1, shards=16, depth=3),
-        _rbc_sys(3, 1, 2, shards=16, depth=3, tiers=("thorough",)), _rbc_sys(4, 1, 1, shards=16, depth=3, tiers=("thorough",)),
+        _rbc_sys(3, 1, 2, shards=16, depth=3), _rbc_sys(4, 1, 1, shards=16, depth=3, tiers=("thorough",)),
     ],
 )
 
@@ -309,7 +309,7 @@ PROPS["C10"]["runs"] += [
 # ---- algebra tier: the real mpc/bls and mpc/ps code over the exponent-representation model of the mathlib driver
 _BLS_OV = "@MATHLIB_BLS@/zz_verif_model.go=@VERIF@/models/mathlib_overlay.go.txt"
 _PS_OV = "@MATHLIB_PS@/zz_verif_model.go=@VERIF@/models/mathlib002_overlay.go.txt"
-_BLS_ARGS = ["-z3", "z3-new", "-noinit", "-overlay", _BLS_OV, "-det", "-preempt", "0"]
+_BLS_ARGS = ["-z3", "z3-new", "-noinit", "-overlay", _BLS_OV, "-redirect", "sort.Slice=verifSortSlice", "-det", "-preempt", "0"]
 _PS_ARGS = ["-z3", "z3-new", "-noinit", "-det", "-preempt", "0", "-overlay", _PS_OV, "-redirect", "github.com/IBM/TSS/mpc/ps.psuedoRandomG2=verifStubG2"]
 _ALG_ENV = COMMON_ENV + [
     "the pairing library is replaced below the mathlib driver interface by an exponent-representation model whose scalars are SMT Reals (field Q): identities with denominators that are products of differences of evaluation points (< 2^16 < r) valid over Q are valid in Z_r",
@@ -487,7 +487,7 @@ _C19_RD = ("github.com/golang/protobuf/proto.Unmarshal=verifProtoUnmarshal,math/
 
 def _c19(scheme, entry, covers, bounds):
     return dict(name="%s adapter: %s" % (scheme, entry), dir="mpc/binance/" + scheme, files=["gen/%s_c19.go.txt" % scheme, "gen/%s_oracle.go.txt" % scheme], entry=entry,
-                args=["-preempt", "0", "-redirect", _C19_RD + ",(*github.com/IBM/TSS/mpc/binance/%s.party).locatePartyIndex=verifLocate" % scheme], replay_args=["-nativeredirect"],
+                args=["-preempt", "0", "-redirect", _C19_RD + ",(*github.com/bnb-chain/tss-lib/v2/tss.Parameters).Parties=verifParties"], replay_args=["-nativeredirect"],
                 count=["assert:C19-", "panic:"], expect_covers=covers, bounds=bounds)
 
 
@@ -532,3 +532,25 @@ PROPS["C04"]["runs"] += [
 PROPS["C01"]["runs"].append(
     _bls("verifH_C01_commute", ["bls_c01b.go.txt"], name="OnMsg order independence lemma", count=["assert:C01-", "panic:"], covers=["end"],
          bounds={"state": "initialised, n=3", "messages": "two arbitrary well-formed messages (share / commitment / reveal) from different senders or of different type"}))
+
+PROPS["C01"]["runs"] += [
+    _bls("verifH_C01_keygen", ["bls_c01.go.txt"], params={"kN": 2, "kT": 2, "kOrder": 2}, name="DKG + signing n=2, every delivery order at all", count=["assert:C01-", "panic:", "deadlock:"], covers=["end"],
+         bounds={"n": 2, "delivery": "any queued message next (reliable broadcast does not keep the rounds of one sender in order)"}),
+    _bls("verifH_C01_keygen", ["bls_c01.go.txt"], params={"kN": 3, "kT": 2, "kOrder": 3}, name="DKG + signing n=3, one message held back", count=["assert:C01-", "panic:", "deadlock:"], covers=["end"], shards=16, shard_depth=4,
+         bounds={"n": 3, "delivery": "send order, except that one symbolically chosen message (any of 18) is held back until nothing else is queued"}),
+]
+PROPS["C08"]["runs"] += [
+    _ps("verifH_C08_threshold", ["ps_c08.go.txt"], params={"pN": 2, "pT": 2, "pL": 1, "pOrder": 2}, name="n=2, every DKG delivery order at all", count=["assert:C08-", "panic:", "deadlock:"], covers=["end"],
+        bounds={"n": 2, "delivery": "any queued message next"}),
+    _ps("verifH_C08_threshold", ["ps_c08.go.txt"], params={"pN": 3, "pT": 2, "pL": 1, "pOrder": 3}, name="n=3, one DKG message held back", count=["assert:C08-", "panic:", "deadlock:"], covers=["end"], shards=16, shard_depth=4,
+        bounds={"n": 3, "delivery": "send order, except that one symbolically chosen message (any of 18) is held back until nothing else is queued"}),
+]
+
+PROPS["C09"]["runs"].append(
+    _ps("verifH_C09_oracle", ["ps_c09.go.txt"], name="PS: the Fiat-Shamir challenges cover every statement value and commitment", count=["assert:C09-", "panic:"],
+        covers=["signature-proof-oracle", "request-proof-oracle"], bounds={"oracles": "randomOracleForPoKofSignature (8 inputs), randomOracleForBlindingProof (10 inputs; the fixed generators gs are not covered by the code and not by the property)", "moved by": "an arbitrary non-zero amount, one input at a time"}))
+
+PROPS["C11"]["runs"].append(
+    dict(name="KeyGen / Sign with a dispatcher stuck inside the session's handler when the deadline passes", dir="threshold", files=["thr_c12.go.txt"], entry="verifH_C11_stuck_dispatch",
+         args=_THR_CONC + ["-preempt", "0", "-det"], count=["assert:C11-", "panic:", "deadlock:"], expect_covers=["returned"],
+         bounds={"call": "KeyGen or Sign (symbolic)", "scenario": "peer's synchroniser message dispatched while the session waits at its first barrier; the handler never returns; context expires at quiescence"}))
